@@ -15,6 +15,11 @@ PROGRAMS = {
     "compute": "let s = 0; for (let i = 0; i < 25; i++) { s += i * i % 7; } s",
     "object-keys": "const o = {}; for (const k of ['zeta', 'alpha', 'm', 'b1', 'a0', 'q']) o[k] = k.length; const ks = []; for (const k in o) ks.push(k); ks.join() + JSON.stringify(o)",
     "map-object-keys": "const ks = [{a:1}, {b:2}, [3], function(){}, {c:3}]; const m = new Map(); ks.forEach((k, i) => m.set(k, i)); const s = new Set(ks); [...m.values()].join() + '|' + [...s].length + '|' + [...m.keys()].map(k => typeof k).join()",
+    # every built-in that builds a collection keyed by objects must keep first-seen / insertion order, never address order
+    "groupby-object-keys": "const ks = []; for (let i = 0; i < 24; i++) ks.push({id: i}); const items = []; for (let i = 0; i < 48; i++) items.push({k: ks[(i * 7) % 24], i}); const g = Map.groupBy(items, it => it.k); const o = Object.groupBy(items, it => 'g' + (it.i % 5)); [...g.keys()].map(k => k.id).join() + '|' + [...g.values()].map(v => v.length).join('') + '|' + Object.keys(o).join()",
+    "set-map-object-order": "const objs = []; for (let i = 0; i < 20; i++) objs.push(i % 3 ? {i} : [i]); const st = new Set(objs.concat(objs.slice(3, 9))); const m = new Map(objs.map((o, i) => [o, i])); m.delete(objs[2]); m.set(objs[2], 'again'); st.delete(objs[5]); st.add(objs[5]); [...st].map(o => Array.isArray(o) ? 'a' + o[0] : 'o' + o.i).join() + '|' + [...m.values()].join() + '|' + [...m.entries()].length",
+    "collections-clone-order": "const ks = [{a: 1}, {b: 2}, {c: 3}, {d: 4}, {e: 5}, {f: 6}, {g: 7}]; const m = new Map(ks.map((k, i) => [k, i])); const s = new Set(ks); const c = typeof structuredClone === 'function' ? structuredClone({m, s}) : {m, s}; [...c.m.values()].join() + '|' + [...c.s].map(o => Object.keys(o)[0]).join() + '|' + [...new Set([...m.keys()].reverse())].map(o => Object.keys(o)[0]).join()",
+    "object-keyed-algorithms": "const ks = []; for (let i = 0; i < 16; i++) ks.push({i}); const ws = new WeakSet(ks.slice(0, 8)); const seen = new Map(); for (const k of ks.concat(ks)) seen.set(k, (seen.get(k) || 0) + 1); const uniq = [...new Set(ks.concat(ks.slice().reverse()))]; const fe = Object.fromEntries([...seen].map(([k, v]) => ['k' + k.i, v])); ks.filter(k => ws.has(k)).length + '|' + uniq.map(k => k.i).join() + '|' + Object.keys(fe).join() + '|' + [...seen.values()].join('')",
     "symbols": "const a = Symbol('a'), b = Symbol('b'); const o = {[b]: 2, [a]: 1, x: 0}; Object.getOwnPropertySymbols(o).map(s => s.description).join() + String(Symbol.for('k') === Symbol.for('k')) + (a === b)",
     "weakmap-identity": "const wm = new WeakMap(); const objs = []; for (let i = 0; i < 8; i++) { const o = {i}; objs.push(o); wm.set(o, i * 2); } objs.map(o => wm.get(o)).join()",
     "sort-objects": "const xs = [5, 3, 9, 1].map(v => ({v})); xs.sort((p, q) => p.v - q.v); xs.map(x => x.v).join() + [{}, [], () => 1].map(String).join('|')",
